@@ -86,6 +86,14 @@ def run(ctx):
             guarded = False
             looked = set()       # which replica's scan was consulted ('a' / 'b'), or 'fs' for a look at the file system
             dst_sig = derived_sig(fl, dst[2])
+            searched = set()
+            for o in dst[2]:
+                if o.kind == 'call' and o.key == 'std::path::Path::join':
+                    searched |= {str(x.key).split('::')[-1] for x in call_arg_origins(fl, o.bb, 1) if x.kind == 'call' and str(x.key).startswith('std::iter::Iterator::')}
+            if searched:
+                # `(0..).map(name).find(|c| free(c))`: the looks happen inside an iterator search that is not unfolded here
+                ctx.undecided('C02.R2', 'apply: the conflict-copy name is the result of an iterator search (%s): which scans it consults before accepting a name is not decided' % ', '.join(sorted(searched)))
+                continue
             for lb, lt in fl.calls(lambda c: c in LOOKERS):
                 args_o = set()
                 for a in lt['args']:
@@ -124,8 +132,16 @@ def run(ctx):
         dsig = sig(dst[2])
         pres = [c for c in both if c[3][0] == 'derived' and sig(c[2][2]) == dsig]
         roots = {c[3][1] for c in pres}
-        guarded = [c for c in pres if fl.guarded_by(cb, c[0], 'Ok')]
-        groots = {c[3][1] for c in guarded}
+        # per replica: the overwrite lies behind the Ok edge of a preserving step on that replica (several alternative steps -
+        # a link with a copy as fall-back - count together: one of them has succeeded on every way to the overwrite)
+        groots = set()
+        for root in roots:
+            edges = set()
+            for c in pres:
+                if c[3][1] == root:
+                    edges |= fl.outcomes(c[0]).get('Ok', set())
+            if edges and cfg.edges_guard(edges, cb):
+                groots.add(root)
         ctx.check(len(groots) >= 2, 'C02.R3', 'apply:BothChanged:preserve-before-overwrite',
                   'overwrite guarded by Ok of loser copies on roots %s' % sorted(map(str, groots)),
                   'the loser is overwritten before it was preserved on both sides (preserving copies that guard the overwrite: roots %s of %s)' % (
